@@ -193,8 +193,8 @@ Definition x_body (sc : scopes) (e : lenv) (x : sx) : outcome instr :=
         let never := ty_eqb yt TNever in
         let noelem := match iter_element yt with Some _ => false | None => true end in
         match op with
-        | USum => if negb noelem && matches yt ACC_SUM then Ok (IUn USum yi) else reject
-        | UProduct => if negb noelem && matches yt ACC_PRODUCT then Ok (IUn UProduct yi) else reject
+        | USum => if negb noelem && matches yt ACC_SUM then plant_reducer (r_sums red) yi yt else reject
+        | UProduct => if negb noelem && matches yt ACC_PRODUCT then plant_reducer (r_products red) yi yt else reject
         | UAll => if matches yt (TFun [] (TTup [TBool; TBool])) then plant (r_all red) else reject
         | UAny => if matches yt (TFun [] (TTup [TBool; TBool])) then plant (r_any red) else reject
         | UBitAnd => if matches yt (TFun [] (TTup [TBool; TInt])) then plant (r_and red) else reject
@@ -391,8 +391,16 @@ Definition wf_scopes (sc : scopes) : Prop :=
   forallb (forallb (fun kv : name * value => wf_ty (as_type (snd kv)))) sc = true.
 Definition wf_fun_val (v : value) : bool :=
   match v with VFun _ ps r => wf_ty (TFun ps r) | _ => false end.
+(* the reducers `$+` / `$*` choose from: at least one, each a function value with a
+   well-formed type, listed with a well-formed iterator type *)
+Definition wf_reds (rs : list (ty * value)) : bool :=
+  match rs with
+  | [] => false
+  | _ => forallb (fun kf => wf_ty (fst kf) && wf_fun_val (snd kf)) rs
+  end.
 Definition wf_red (red : reducers) : Prop :=
   wf_fun_val (r_all red) && wf_fun_val (r_any red) && wf_fun_val (r_and red) && wf_fun_val (r_or red)
+  && wf_reds (r_sums red) && wf_reds (r_products red)
   = true.
 
 (* ---------- size of the surface AST: a fuel that suffices ---------- *)
